@@ -547,7 +547,8 @@ def class_lookup_mode(repo):
 IMPL_NAMES = {"self", "cls", "consts", "netref", "brine", "sys", "inspect", "itertools", "pickle", "vinegar", "conn", "config", "methods", "attrs",
               "types", "slot", "accessor", "logger"}
 # names that CPython builtins applied by the handlers look up on their argument
-BUILTIN_LOOKUPS = {"dict": ["keys"], "isinstance": ["__class__", "__bases__"], "call-star": ["__qualname__", "__module__"]}
+BUILTIN_LOOKUPS = {"dict": ["keys"], "isinstance": ["__class__", "__bases__"], "call-star": ["__qualname__", "__module__"],
+                   "subscript": ["__class_getitem__"]}      # x[i] on a class object asks it for __class_getitem__
 
 
 def const_names(repo, cls):
@@ -579,6 +580,10 @@ def const_names(repo, cls):
                     add(node.attr)
             if isinstance(node, ast.Call) and isinstance(node.func, ast.Name) and node.func.id in BUILTIN_LOOKUPS:
                 for n in BUILTIN_LOOKUPS[node.func.id]:
+                    add(n)
+            if isinstance(node, ast.Subscript) and isinstance(node.ctx, ast.Load) and isinstance(node.value, ast.Name) \
+                    and node.value.id not in IMPL_NAMES and fn.name.startswith("_handle_"):
+                for n in BUILTIN_LOOKUPS["subscript"]:      # a handler subscripts one of its (peer-supplied) arguments
                     add(n)
             if isinstance(node, ast.Call) and any(isinstance(a, ast.Starred) for a in node.args):
                 for n in BUILTIN_LOOKUPS["call-star"]:
